@@ -363,7 +363,9 @@ def stateCore (focus : String) (c : Case) : Acc × String := Id.run do
               acc := { acc with compared := acc.compared + 1 }
             let dropV := FMat.ofFn sig.size m fun i j => if sig[i]! > eps then 0.0 else Vt.get i j
             let nulC := dropV.mul ci
-            if tolC ≤ 5e-2 * (max cmax 1e-300) then
+            -- exact sub-stream (diagonal matrices, exact decomposition on both sides): rounding only
+            let tolC := if exact then 256.0 * u * (max cmax (ymax / cond.sminKept)) else tolC
+            if tolC ≤ 5e-2 * (max cmax 1e-300) || exact then
               if !(nulC.maxAbs ≤ tolC) then
                 acc := { acc with mon := acc.mon.push s!"step{si}:not-min-norm={fmtF nulC.maxAbs}" }
             if !ci.allFinite then
